@@ -28,7 +28,7 @@ OPS = (['compute', 'misfit', 'gradient', 'jvec', 'jtvec', 'get_efield',
        [f'dict:{w}' for w in WHATS_COPY] +
        [f'file:{f}:{w}' for f in ('h5', 'npz', 'json')
         for w in ('computed', 'results', 'plain')] +
-       ['model:m2', 'noise:n2', 'model-inplace:m2'])
+       ['model:m2', 'noise:n2', 'model-inplace:m2', 'touch'])
 
 RTOL = 1e-6
 
@@ -281,6 +281,26 @@ def apply(op, st, ref, viol, pid):
         st['mid'] = op.split(':')[1]
         S.model = make_model(pid, st['mid'])
         S.clean('all')
+    elif op == 'touch':
+        # reading public attributes (many are lazily computed and cached) of
+        # the simulation's parts is not an operation: nothing may change
+        objs = [S.survey, S.model, S.model.grid] + \
+            list(S.survey.sources.values()) + \
+            list(S.survey.receivers.values())
+        for o in objs:
+            for name in dir(o):
+                if name.startswith('_'):
+                    continue
+                try:
+                    getattr(o, name)
+                except Exception:  # noqa - needs arguments / not available
+                    pass
+        for name in ('data', 'gridding', 'gridding_opts', 'solver_opts',
+                     'layered', 'layered_opts', 'file_dir', 'max_workers',
+                     'name', 'info', 'tol_forward', 'tol_gradient'):
+            getattr(S, name)
+        repr(S)
+        S.print_grid_info(return_info=True)
     elif op.startswith('model-inplace:'):
         # the model OBJECT stays, its arrays are overwritten in place
         st['mid'] = op.split(':')[1]
